@@ -120,6 +120,31 @@ Theorem C15_grouping : forall (A : Type) (dec : list Z -> Z -> list A) file ns, 
 Proof. exact grouping_spec. Qed.
 Print Assumptions C15_grouping.
 
+(* any source: local sources and the http executor strategy fill the buffer in the order of the byte queries, the http
+   queue strategy gets the ranges back in ANY order and fills the buffer in ascending offset order.  When the chunks of
+   the selected nodes do not overlap (`apart`, in offset order each ends before the next begins - any chunk order in the
+   file, any levels), the byte queries ascend strictly, so both ways give the same buffer: the chunk table fits it and
+   the decoded points are the nodes' points *)
+Theorem C15_queue_order : forall ns arrival, apart (sort_off ns) ->
+  Permutation arrival (byte_queries (groups (sort_off ns))) -> sort_q arrival = byte_queries (groups (sort_off ns)).
+Proof. exact queue_order. Qed.
+Print Assumptions C15_queue_order.
+
+Theorem C15_any_source : forall (A : Type) (dec : list Z -> Z -> list A) file ns arrival,
+  Forall (node_in_file file) ns -> apart (sort_off ns) ->
+  Permutation arrival (byte_queries (groups (sort_off ns))) ->
+  fetch_and_decode_queue dec file arrival ns = fetch_and_decode dec file ns
+  /\ fetch_and_decode_queue dec file arrival ns = flat_map (node_dec dec file) (sort_off ns).
+Proof. exact queue_strategy_spec. Qed.
+Print Assumptions C15_any_source.
+
+(* the caller's Bounds object is not modified by a query (a 2-D box stays 2-D): the same object handed to any sequence
+   of queries, on the same file or on other files with other z ranges, gives for every query the answer of a Bounds
+   object of its own - to which C15_points .. C15_enclosing apply *)
+Theorem C15_shared_bounds : forall ss qb, session qb ss = (qb, map (query_fresh qb) ss).
+Proof. exact session_shared_bounds. Qed.
+Print Assumptions C15_shared_bounds.
+
 (* the hypotheses are checkable: the executable checks the harness runs on every generated file imply them *)
 Theorem C15_wf_check : forall t, wf_treeb t = true -> wf_tree t.
 Proof. exact wf_treeb_sound. Qed.
@@ -129,10 +154,15 @@ Theorem C15_pts_check : forall t c g hz0 hz1 pts, pts_okb t c g hz0 hz1 pts = tr
 Proof. exact pts_okb_sound. Qed.
 Print Assumptions C15_pts_check.
 
+Theorem C15_apart_check : forall l, apartb l = true -> apart l.
+Proof. exact apartb_sound. Qed.
+Print Assumptions C15_apart_check.
+
 (* shape of the source the model relies on (checked by the translator) *)
 Theorem C15_source_shape :
   gen_pop_from_end = true /\ gen_requeue_front = true /\ gen_merge_keeps_resolved = true /\ gen_groups_contiguous = true
-  /\ gen_page_marker = -1 /\ gen_node_min_count = 0 /\ gen_childs_n = 8.
+  /\ gen_page_marker = -1 /\ gen_node_min_count = 0 /\ gen_childs_n = 8
+  /\ gen_queue_sorts_by_offset = true /\ gen_ensure3d_fresh = true.
 Proof. repeat split. Qed.
 Print Assumptions C15_source_shape.
 
@@ -151,6 +181,13 @@ Example C15_nonvacuous :
   = Ok [mkPt 1 1 1 0]
   /\ load_octree 3 (mkTree [mkEntry root_key 0 64 (-1)] [((0, 64), [mkEntry root_key 0 64 (-1)])]) (mkGeom 0 0 0 8) None None
   = Err ELaspy
+  /\ session (Box2 0 0 3 3)
+       [mkStep ex_tree (mkGeom 0 0 0 8) 0 2 (fun _ => mkQ (0,1) (0,1) (0,1) (3,1) (3,1) (2,1)) LvAll ex_pts;
+        mkStep ex_tree (mkGeom 0 0 0 8) 0 8 (fun _ => mkQ (0,1) (0,1) (0,1) (3,1) (3,1) (8,1)) LvAll ex_pts]
+     = (Box2 0 0 3 3, [Ok [mkPt 2 2 2 3; mkPt 1 1 1 0]; Ok [mkPt 2 2 2 3; mkPt 3 3 4 4; mkPt 3 3 3 5; mkPt 1 1 1 0]])
+  /\ (let ns := [mkEntry (mkKey 0 0 0 0) 300 10 2; mkEntry (mkKey 1 0 0 0) 100 20 1; mkEntry (mkKey 2 0 0 0) 200 5 4] in
+      byte_queries (groups (sort_off ns)) = [(100, 20); (200, 5); (300, 10)]
+      /\ sort_q [(300, 10); (100, 20); (200, 5)] = byte_queries (groups (sort_off ns)) /\ apartb (sort_off ns) = true)
   /\ fuel_bound ex_tree = 34%nat /\ wf_treeb ex_tree = true
   /\ pts_okb ex_tree (mkCsys 1 (mkAxis 1 1 0) (mkAxis 1 1 0) (mkAxis 1 1 0)) (mkGeom 0 0 0 8) 0 8 ex_pts = true.
 Proof. vm_compute. repeat split. Qed.
